@@ -24,7 +24,7 @@ CONFIG = dict(
     audit="Audit/C15.lean",
     required_theorems=["shipped_source_facts", "shipped_sound", "shipped_scheduler_correct", "post_exactly_once", "per_poster_fifo", "panic_does_not_block_later",
                        "post_after_stop_is_harmless", "overflow_path_breaks_fifo", "tasks_in_order", "args_threaded",
-                       "error_jumps_to_final", "final_at_most_once", "final_exactly_once", "everything_via_post"],
+                       "error_jumps_to_final", "final_at_most_once", "final_exactly_once", "everything_via_post", "anonymous_service_gets_own_scheduler"],
     harness_pkg="./c15",
     mode="accept",
     reset_prefix="reset",
@@ -48,12 +48,14 @@ CONFIG = dict(
          "later via goroutine, caller, timer or a posted closure / never / twice / panicking before or after completing, several chains interleaved, "
          "chains started from the test goroutine / a foreign goroutine / a closure on the consumer, with the consumer idle or parked behind "
          "0/3/997/998/999 queued closures (the starter then blocks in Post on the full channel), each task checked for a usable callback, "
-         "completions after Stop; events compared one by one with the model. A second run repeats the generators on one P (GOMAXPROCS=1: woken goroutines "
+         "completions after Stop; events compared one by one with the model. Multi-service cases: 1-6 anonymous run services "
+         "(NewRunService(\"\")) alive at once, numbered and panicking closures and waterfall chains posted to each, services stopped and created in "
+         "any order (created-after-stop included); every closure must run on its own service's loop goroutine. A second run repeats the generators on one P (GOMAXPROCS=1: woken goroutines "
          "run late). A deterministic sweep (every length x error position x mode, every fill "
          "level x both consumers) runs first. Non-trivial = an op on which at least one closure/task/final ran; distinct = distinct (op, observation) pairs.",
     trusted_base=[
         "Lean 4.33.0 kernel; axioms of every property theorem audited on each run (allowed: propext, Classical.choice, Quot.sound)",
-        "hand-written models lean/Cell2v/Model/Sche.lean and Model/Waterfall.lean, tied to the Go code by the differential run of this check (harness/c15 + modeld_c15)",
+        "hand-written models lean/Cell2v/Model/Sche.lean, Model/Waterfall.lean and Model/ScheMgr.lean (scheduler registry), tied to the Go code by the differential run of this check (harness/c15 + modeld_c15)",
         "translator harness/extract/c15 (go/ast, ~250 lines): selfBlockDefend initial value and absence of assignments, QueueSize, chanTask capacity, recover() in doTask and Post",
         "Go channel semantics: bounded FIFO buffer, a send is one atomic step, a send on a closed channel panics, blocked senders resume in some order",
         "testing/synctest (go1.26) quiescence detection; goroutine ids parsed from runtime.Stack by the harness",
